@@ -1,5 +1,5 @@
 import TongoModel.Tlb.Enc
-/-! `marshal_no_panic`: the encoder model never answers `panic` — for ANY descriptor, ANY value (also outside `inDom`:
+/-! `marshal_no_panic_by_construction`: the encoder model never answers `panic` — for ANY descriptor, ANY value (also outside `inDom`:
 nil pointers, wrong shapes), any builder. After the `fix:` commits that turned the three nil dereferences of the Go
 encoder (a nil pointer to a MarshalerTLB type, a MsgAddress without its payload, a VmCellSlice without a cell) into
 errors there is no `panic` constructor left on the encoder side of the model; this file is the proof that none is
